@@ -552,6 +552,9 @@ func layerTag(l gopacket.Layer) string {
 		if len(x.RadioTapValues) > 0 && !x.RadioTapValues[0].Flags.FCS() {
 			return "without-fcs-flag"
 		}
+		if len(x.RadioTapValues) > 0 && x.RadioTapValues[0].Flags.Datapad() {
+			return "with-datapad-flag"
+		}
 	}
 	return ""
 }
